@@ -136,9 +136,7 @@ func Build(cfg *Cfg) *Built {
 	if h := cfg.HelpOpt(); h != 0 {
 		o := cfg.Opts[h-1]
 		fns := []getoptions.ModifyFn{}
-		if len(o.Aliases) > 0 {
-			fns = append(fns, root.Alias(StringsOf(o.Aliases)...))
-		}
+		fns = append(fns, aliasFns(root, &o)...)
 		if len(o.Desc) > 0 {
 			fns = append(fns, root.Description(FromAtoms(o.Desc)))
 		}
@@ -214,9 +212,7 @@ func (b *Built) defineOpt(i int, g *getoptions.GetOpt) {
 	o := b.Cfg.Opts[i]
 	name := FromAtoms(o.Name)
 	fns := []getoptions.ModifyFn{}
-	if len(o.Aliases) > 0 {
-		fns = append(fns, g.Alias(StringsOf(o.Aliases)...))
-	}
+	fns = append(fns, aliasFns(g, &o)...)
 	if len(o.Desc) > 0 {
 		fns = append(fns, g.Description(FromAtoms(o.Desc)))
 	}
@@ -496,4 +492,19 @@ func (b *Built) Root0CalledAs(i int) string {
 
 func (b *Built) Ctx() context.Context {
 	return context.WithValue(context.Background(), ctxKey("verif"), b.CtxTag)
+}
+
+// aliasFns - the aliases as one Alias modifier, or as one modifier per alias.
+func aliasFns(g *getoptions.GetOpt, o *OptCfg) []getoptions.ModifyFn {
+	if len(o.Aliases) == 0 {
+		return nil
+	}
+	if !o.AliasSplit {
+		return []getoptions.ModifyFn{g.Alias(StringsOf(o.Aliases)...)}
+	}
+	fns := []getoptions.ModifyFn{}
+	for _, a := range o.Aliases {
+		fns = append(fns, g.Alias(FromAtoms(a)))
+	}
+	return fns
 }
